@@ -21,7 +21,8 @@ EXPLANATION = (
     'default arguments, no mutated class-level containers; R20.5 every token-type chain evaluated inside a function body '
     'already exists at import (prefix closure over module/class level chains), so _TokenType.__getattr__ never creates a '
     'type on the request path; R20.6 clear()/default_initialization() rebuild all lexer state; R20.7 the only stores to '
-    'module/class-level state reachable from the entry points are those of R20.1. Not decided: interleavings inside '
+    'module/class-level state reachable from the entry points are those of R20.1; R20.8 closures created at import (decorators such '
+    'as utils.recurse) never rebind or mutate what they capture and store no function attributes. Not decided: interleavings inside '
     'CPython and user code reconfiguring the lexer concurrently.')
 
 ENTRY = ['sqlparse.parse', 'sqlparse.parsestream', 'sqlparse.split', 'sqlparse.format']
